@@ -248,6 +248,9 @@ func (r SliceDotsReplacer) Replace(d data.Data, cl Changelog, pos token.Pos) (re
 
 	result := reflect.MakeSlice(r.Type, len(items), len(items))
 	for i, item := range items {
+		if err := checkAssignable(item, r.Type.Elem()); err != nil {
+			return reflect.Value{}, err
+		}
 		result.Index(i).Set(item)
 	}
 	return result, nil
